@@ -307,6 +307,9 @@ func c12Run(c *fw.Ctx) error {
 		c.Note("/dev/shm not available: the cross-device configuration was skipped")
 		c.Res.Exhaustive = false
 	}
+	if c.Shard == 0 {
+		c12StraceCheck(c, work)
+	}
 	combos := c12Combos(c.Thorough())
 	c.Res.Bound = fmt.Sprintf("%d (input, expression, configuration) combinations x every single fault at every reached step (error, short write/copy, SIGKILL before the step, SIGKILL after half a write); double faults on %s", len(combos), map[bool]string{false: "the `ok` and `ok3` combinations", true: "every combination"}[c.Thorough()])
 	var idx int64
@@ -415,6 +418,9 @@ func c12Replay(raw json.RawMessage) (bool, string, error) {
 		return false, "", err
 	}
 	defer os.RemoveAll(work)
+	if cs.Plan == "strace" {
+		return true, "step-list completeness (strace) violations are re-derived by running ./check C12 quick", nil
+	}
 	ref, err := c12Reference(work, cs.Combo)
 	if err != nil {
 		return false, "", err
@@ -433,7 +439,7 @@ func init() {
 			ID: "C12", Level: "fault_enumeration",
 			Rule: "real yq binary (built with -tags verif) run with -i on a scratch file; a recording run lists the file-system steps reached; every single fault at every reached step (and every pair on the successful combinations; thorough: on all) is injected through $YQ_VERIF_PLAN; " +
 				"oracle: exit 0 => file == stdout of the same command without -i and mode unchanged; exit != 0 => file byte-identical and a message on stderr; SIGKILL => complete old or complete new; front matter body preserved; non-trivial = distinct (combination, non-empty fault plan)",
-			Assumptions: []string{"crash = SIGKILL at step boundaries or after half a write (page cache survives); power-loss durability is outside the statement", "the step list is the hook list of DESIGN.md appendix B; a kill inside io.Copy is represented by the half-copy action"},
+			Assumptions: []string{"crash = SIGKILL at step boundaries or after half a write (page cache survives); power-loss durability is outside the statement", "the step list is the hook list of DESIGN.md appendix B, re-checked on every run against strace: every creating/writing/renaming/chmod/chown/unlink/sync syscall on the target, temp or staging file must follow a marker of a step that allows it; a kill inside io.Copy is represented by the half-copy action"},
 			Budget: func(t string) time.Duration {
 				if t == "thorough" {
 					return 30 * time.Minute
